@@ -352,24 +352,71 @@ def shrink(item, rerun):
                                 model_input=mi, drv=item.get("drv", DRV))
         return (not sb.startswith("true")), case, impl, model, sb
 
-    progress = True
     best = None
-    while progress:
-        progress = False
-        for k in range(len(cur[1]) - 1, -1, -1):
-            cand = drop_sample(cur, k)
-            bad, case, impl, model, sb = fails(cand)
-            if bad:
-                cur, best, progress = cand, (case, impl, model, sb), True
-                break
-        if not progress:
-            for j in range(len(cur[2])):
-                cand = (cur[0], cur[1], cur[2][:j] + cur[2][j + 1:], cur[3], cur[4])
-                bad, case, impl, model, sb = fails(cand)
-                if bad:
-                    cur, best, progress = cand, (case, impl, model, sb), True
-                    break
+    budget = [250]          # at most this many re-runs
+
+    def try_drop(cur, ks):
+        if budget[0] <= 0:
+            return None
+        budget[0] -= 1
+        cand = cur
+        for k in sorted(ks, reverse=True):
+            cand = drop_sample(cand, k)
+        bad, case, impl, model, sb = fails(cand)
+        return (cand, (case, impl, model, sb)) if bad else None
+
+    # delta debugging on the samples: drop chunks of decreasing size
+    chunk = max(1, len(cur[1]) // 2)
+    while chunk >= 1 and budget[0] > 0:
+        k = 0
+        removed = False
+        while k < len(cur[1]) and budget[0] > 0:
+            r = try_drop(cur, range(k, min(k + chunk, len(cur[1]))))
+            if r:
+                cur, best = r
+                removed = True
+            else:
+                k += chunk
+        if chunk == 1 and not removed:
+            break
+        chunk = chunk // 2 if chunk > 1 else (1 if removed else 0)
+    # then allocation entries
+    j = 0
+    while j < len(cur[2]) and budget[0] > 0:
+        budget[0] -= 1
+        cand = (cur[0], cur[1], cur[2][:j] + cur[2][j + 1:], cur[3], cur[4])
+        bad, case, impl, model, sb = fails(cand)
+        if bad:
+            cur, best = cand, (case, impl, model, sb)
+        else:
+            j += 1
     if best:
         item = dict(item)
         item["case"], item["impl"], item["model"], item["spec_verdict"] = best
     return item
+
+
+MANIFEST = {
+    "text": ("Coq theorems about an executable model of BenchContext::compute_stats that takes the sorted view of the samples as "
+             "a parameter and are proved for every list of durations and EVERY admissible view (every permutation of the "
+             "indexed samples sorted by duration, i.e. whatever sort_unstable does with ties): fastest/slowest/median/mean are "
+             "the floor-division order statistics in integer picoseconds (C05_order_stats), fastest <= median <= slowest and "
+             "fastest <= mean <= slowest hold with the floors (C05_bounds), no panic and every f64 field finite for all inputs "
+             "incl. no samples / sample size 0 / no counters (C05_total_no_nan; the pre-fix code is refuted by an Example, and "
+             "sample size 0 WITH samples still divides by zero: C05_total_refuted_zero_sample_size, unreachable from the "
+             "sampling loop), allocation and counter figures of a column come from the same sample index as its time and the "
+             "even-count median averages two different samples (C05_provenance), means over all infos/iterations (C05_means), "
+             "counter presence, the stored per-input counter is the sum over the sample's inputs / sample size without loss "
+             "(C05_counter_per_iter), and the boolean specification used by the violation search holds of the model "
+             "(C05_model_sb). Tied to the code by differential execution through divan::__verif::stats_from_samples on "
+             "generated sample sets (ties with distinct per-index data, empty/singleton, > 2^64, up to 300/2000 samples, debug "
+             "and release) with membership comparison over the admissible views, and by history-driven replays of real Bencher "
+             "runs (threads 1..3, per-input counters, AllocProfiler installed)."),
+    "note": ("Trusted: Coq kernel, extraction (ExtrOcamlBasic), ocaml/stats.ml (parsing; its search for the view the real sort "
+             "chose is unverified but the view is checked by the extracted admissibleb), hooks stats_from_samples/verif_load/"
+             "run_bencher, harness hx-stats. f64 rounding is not modelled: f64 figures are exact rationals compared at 1e-12 "
+             "relative tolerance with exact zero/finite/inf/NaN classification. Guards of the theorems: no u128 overflow of the "
+             "duration total, no u64 overflow of the iteration count, counter values fit u64, allocation peaks non-negative. "
+             "Not done: C05_print_total (composition with the formatting/painter models of other groups)."),
+    "technique": "machine-checked proof in Coq (lists, permutations, lia/nia over N) + differential and history-driven correspondence against the real crate",
+}
